@@ -138,6 +138,9 @@ PROPS = {
             part('mixed', FLOW, 150, 2000, monitors=[M.mon_c01], props=['C01'], sub='mixed', variants=2, scheds=QUIESCENT, snap='live'),
             part('loop', FLOW, 60, 600, monitors=[M.mon_c01], props=['C01'], sub='loop', variants=2, scheds=QUIESCENT, snap='live'),
             part('error', ERROR, 300, 6000, monitors=[M.mon_c01], props=['C01'], chunk=60),
+            part('sub', SUB, 250, 5000, monitors=[M.mon_c01], props=['C01'], chunk=60),
+            part('gen', GEN, 250, 5000, monitors=[M.mon_c01], props=['C01'], chunk=60, sub='gen'),
+            part('hooks', GEN, 250, 5000, monitors=[M.mon_c01], props=['C01'], chunk=60, sub='hooks'),
         ],
     },
     'C02': {
@@ -150,6 +153,8 @@ PROPS = {
             part('plain', FLOW, 300, 6000, monitors=[M.mon_c02], props=['C02'], sub='plain', variants=2, scheds=ALLSCHED, snap='live'),
             part('loop', FLOW, 40, 400, monitors=[M.mon_c02], props=['C02'], sub='loop', variants=2, scheds=QUIESCENT, snap='live'),
             part('error', ERROR, 500, 8000, monitors=[M.mon_c02], props=['C02'], chunk=60, second_error=True),
+            part('gen', GEN, 200, 4000, monitors=[M.mon_c02], props=['C02'], chunk=60, sub='gen'),
+            part('sub', SUB, 200, 4000, monitors=[M.mon_c02], props=['C02'], chunk=60),
         ],
     },
     'C03': {
@@ -173,6 +178,9 @@ PROPS = {
             part('duel', ACTIONS, 300, 6000, monitors=[M.mon_c08], props=['C08'], sub='duel'),
             part('loop', FLOW, 40, 400, monitors=[M.mon_c08], props=['C08'], sub='loop', variants=2, scheds=QUIESCENT, snap='live'),
             part('error', ERROR, 300, 6000, monitors=[M.mon_c08], props=['C08'], chunk=60, second_error=True),
+            part('gen', GEN, 200, 4000, monitors=[M.mon_c08], props=['C08'], chunk=60, sub='gen'),
+            part('hooks', GEN, 200, 4000, monitors=[M.mon_c08], props=['C08'], chunk=60, sub='hooks'),
+            part('sub', SUB, 200, 4000, monitors=[M.mon_c08], props=['C08'], chunk=60),
         ],
     },
     'C11': {
@@ -182,6 +190,13 @@ PROPS = {
             part('plain', FLOW, 500, 8000, monitors=[M.mon_c11], props=['C11'], sub='plain', variants=2, scheds=QUIESCENT, snap='rows'),
             part('matrix', ACTIONS, 500, 8000, monitors=[M.mon_c11], props=['C11'], sub='matrix'),
             part('sqlite', FLOW, 60, 800, monitors=[M.mon_c11], props=['C11'], sub='plain', variants=1, scheds=['cur-fifo', 'cur-chaos'], snap='rows', store='sqlite'),
+            part('error', ERROR, 300, 5000, monitors=[M.mon_c11], props=['C11'], chunk=60, snap='rows', evict=0.0),
+            part('data', DATA, 300, 5000, monitors=[M.mon_c11], props=['C11'], chunk=60, snap='rows'),
+            part('gen', GEN, 200, 4000, monitors=[M.mon_c11], props=['C11'], chunk=60, sub='gen', snap='rows'),
+            part('hooks', GEN, 150, 3000, monitors=[M.mon_c11], props=['C11'], chunk=60, sub='hooks', snap='rows'),
+            part('sub', SUB, 150, 3000, monitors=[M.mon_c11], props=['C11'], chunk=60, snap='rows'),
+            part('error-sqlite', ERROR, 40, 800, monitors=[M.mon_c11], props=['C11'], chunk=10, snap='rows', evict=0.0, store='sqlite'),
+            part('hooks-sqlite', GEN, 30, 600, monitors=[M.mon_c11], props=['C11'], chunk=10, sub='hooks', snap='rows', store='sqlite'),
         ],
     },
     'C05': {
